@@ -22,6 +22,17 @@ REMOVE = "draw_table::DrawTable::remove_board_from_draw_table"
 IS3 = "draw_table::DrawTable::is_threefold_repetition"
 
 
+def search_const(f, name):
+    """Value of a search constant (MATE_SCORE, POS_INF, NEG_INF) wherever the crate defines it: the
+    engine module, or the one const item of that name."""
+    if f.has_const("engine::" + name):
+        return f.const_value("engine::" + name)
+    cands = [k for k in f.d["consts"] if k.split("::")[-1] == name]
+    if len(cands) != 1:
+        raise AnchorMissing("const `%s` not found (candidates: %s)" % (name, cands))
+    return f.const_value(cands[0])
+
+
 def params_by_type(b, ty):
     return [i for i in range(1, b.arg_count + 1) if b.local_ty(i) == ty]
 
@@ -206,13 +217,52 @@ def _elapsed_ms_since(e):
     return None
 
 
-def clock_test(e, truth=True):
+def _closure_result(facts, call):
+    """The value a call of a capture-only, branch-free local closure returns, with its captures
+    substituted by the captured expressions of the closure value it is called on; None otherwise."""
+    clo = _unref(call[2][0])
+    if not (clo[0] == "agg" and clo[1] == "closure" and clo[2] == call[1]):
+        return None
+    cb = facts.body(call[1])
+    if any(cb.term(x)["k"] == "switch" for x in cb.normal if x in cb.reachable):
+        return None
+    cex = Exprs(cb)
+    rs = return_sites(cb)
+    if len(rs) != 1:
+        return None
+    loc, st = rs[0]
+    r = cex.rvalue(st["rv"], loc) if st is not None else cex.call_expr(cb.term(loc[0]), loc)
+    caps = clo[3]
+
+    def sub(x):
+        if not isinstance(x, tuple) or not x or not isinstance(x[0], str):
+            return x
+        if x[0] == "field" and _unref(x[1]) == ("arg", 1):
+            try:
+                return caps[int(x[2])]
+            except (ValueError, IndexError):
+                return ("opaque", "capture")
+        if x[0] == "arg":
+            return ("opaque", "closure argument")
+        return tuple(tuple(sub(y) for y in z) if isinstance(z, tuple) and z and isinstance(z[0], tuple) else sub(z) for z in x)
+    return sub(r)
+
+
+def clock_test(e, truth=True, facts=None):
     """The boolean `e` (having the value `truth`) is a verdict of the deadline test, spelled as a call
     of out_of_time(start, t) or as the comparison it stands for (`elapsed_ms(start) >= t`, flipped or
     negated: what is left when the predicate is a method of a clock object and gets inlined).
     Returns (expired, start expr, allowance expr, location of the clock read) or None."""
     if e[0] == "call" and e[1] == OOT and len(e[2]) == 2:
         return truth, _unref(e[2][0]), _unref(e[2][1]), e[3]
+    if facts is not None and e[0] == "call" and "{closure" in e[1] and e[2] and facts.has_body(e[1]):
+        # `let timed_out = || out_of_time(start, t); .. if timed_out() ..`: the verdict of a local closure
+        # whose body is the deadline test of its captured values; the clock is read where it is called
+        r = _closure_result(facts, e)
+        if r is not None:
+            ct = clock_test(r, truth, None)
+            if ct is not None:
+                return ct[0], ct[1], ct[2], e[3]
     for neg in (False, True):
         c = _cmp_norm(("un", "Not", e) if neg else e)
         if c is not None and c[0] in ("Ge", "Gt"):
@@ -243,8 +293,8 @@ def ot_edges(b, ex, own_only=True):
     """CFG edges that decide an evaluation of out_of_time(start, t): the switch may test the call
     itself, its negation, or a named / `&&`-composed boolean built from it (wa/implied.py).
     Yields (switch_bb, target, truth, call_bb, fresh_blocks, lastdefs, own)."""
-    for s, tg, (e, truth), fresh, lastdefs in implying_edges(b, ex, lambda e, t: clock_test(e, t) is not None):
-        ct = clock_test(e, truth)
+    for s, tg, (e, truth), fresh, lastdefs in implying_edges(b, ex, lambda e, t: clock_test(e, t, b.facts) is not None):
+        ct = clock_test(e, truth, b.facts)
         own = _own_clock_test(b, ct)
         if own_only and not own:
             continue
@@ -386,9 +436,10 @@ def _fallback_ok(b, ex, bb):
     okv = False
     if sent[0] == "call" and sent[1].endswith("BoardState as std::clone::Clone>::clone"):
         src = strip_refs(sent[2][0])
-        if src[0] == "call" and src[1].endswith("::index") and src[2][1] == ("const", 0):
-            vec = root_local(src[2][0])
-            if vec is not None and b.local_ty(vec) == "std::vec::Vec<board::BoardState>":
+        if loopform.element_index(src) == 0:
+            roots = loopform.receiver_roots(b, ex, src, "std::vec::Vec<board::BoardState>")
+            vec = next(iter(roots)) if len(roots) == 1 else None
+            if vec is not None:
                 # I3: index 0 where an iterator over the same vector has yielded an element => non-empty
                 # (the `Some` edge of its `next` dominates the send, or guarded the definition of the
                 # flag the send is under: `let all = walk(&moves); if !all { send(moves[0]) }`)
@@ -400,7 +451,9 @@ def _fallback_ok(b, ex, bb):
     if not okv:
         why.append("does not send `moves[0].clone()` from inside the loop over `moves`")
     # followed by return: no ABS call and no further send reachable
-    after = b.reach_from(bb) - {bb}
+    # (on paths consistent in the constant flags they set and test: `return false` out of an inlined
+    # pass followed by the caller's `if !done { return }`)
+    after = feasible_reach(b, ex, bb) - {bb}
     if any(x in after for x in abs_calls(b)):
         why.append("search continues after the fallback send")
     return (not why), "; ".join(why)
@@ -505,8 +558,8 @@ def _cmp_norm(e):
 def r7_2(ctx):
     """The abort sentinel is produced only under the clock test at function entry."""
     f = ctx.facts
-    neg_inf = f.const_value("engine::NEG_INF")
-    pos_inf = f.const_value("engine::POS_INF")
+    neg_inf = search_const(f, "NEG_INF")
+    pos_inf = search_const(f, "POS_INF")
     n = 0
     for fn in (ABS, QUIESCE):
         b = f.body(fn)
@@ -707,7 +760,10 @@ def r3_2(ctx):
         if sent[0] == "call" and sent[1].endswith("BoardState as std::clone::Clone>::clone"):
             src = strip_refs(sent[2][0])
             vec = None
-            if src[0] == "call" and src[1].endswith("::index"):
+            if loopform.element_index(src) is not None:
+                roots = loopform.receiver_roots(b, ex, src, "std::vec::Vec<board::BoardState>")
+                vec = next(iter(roots)) if len(roots) == 1 else None
+            elif src[0] == "call" and src[1].endswith("::index"):
                 vec = root_local(src[2][0])
             elif src[0] == "field" and src[1][0] == "downcast" and src[1][1][0] == "call" and src[1][1][1].endswith("::next"):
                 # the item of an iterator over the list (`for m in &moves`, over a slice of it, ..)
@@ -759,7 +815,7 @@ def r11_1(ctx):
     b = f.body(ABS)
     ctx.note_fn(ABS)
     ex = Exprs(b)
-    mate = f.const_value("engine::MATE_SCORE")
+    mate = search_const(f, "MATE_SCORE")
     bp = one_param(b, "&board::BoardState")
     reg = _moves_empty_region(b, ex)
     if reg is None:
@@ -891,7 +947,9 @@ def r12_5(ctx):
         args = ex.call_args(bb)
         board_arg = strip_refs(args[bp - 1])
         # the null move: searched position is a clone of this node's board with the side flipped
-        if not (board_arg[0] == "var" and b.local_ty(board_arg[1]) == "board::BoardState"):
+        # (a BoardState value built here: a mutated clone, or a struct-update literal of the own board)
+        if not ((board_arg[0] == "var" and b.local_ty(board_arg[1]) == "board::BoardState") or
+                (board_arg[0] == "agg" and board_arg[1] == "board::BoardState")):
             continue
         n += 1
         ok_allow = ok_depth = ok_check = False
@@ -1016,7 +1074,7 @@ def r12_2(ctx):
     """Child window polarity: a child is searched with (-hi, -lo) where (lo, hi) is (alpha, beta),
     (alpha, alpha+1) or (beta-1, beta); the leaf hand-over keeps (alpha, beta)."""
     f = ctx.facts
-    pos_inf = f.const_value("engine::POS_INF")
+    pos_inf = search_const(f, "POS_INF")
     n = 0
     for fn in (GBM, ABS, QUIESCE):
         b = f.body(fn)
@@ -1257,9 +1315,9 @@ def _n(b, k):
 def r11_2(ctx):
     """Mate-distance clamps and the ordering of the special scores."""
     f = ctx.facts
-    mate = f.const_value("engine::MATE_SCORE")
-    pos_inf = f.const_value("engine::POS_INF")
-    neg_inf = f.const_value("engine::NEG_INF")
+    mate = search_const(f, "MATE_SCORE")
+    pos_inf = search_const(f, "POS_INF")
+    neg_inf = search_const(f, "NEG_INF")
     ctx.ob("constants:POS_INF>MATE_SCORE", pos_inf > mate > 0 and neg_inf == -pos_inf, "src/engine.rs", "POS_INF=%d, NEG_INF=%d, MATE_SCORE=%d" % (pos_inf, neg_inf, mate))
     b = f.body(ABS)
     ctx.note_fn(ABS)
@@ -1428,7 +1486,7 @@ def r11_5(ctx):
                 else:
                     others.append(show_expr(d0, b)[:60])
                 continue
-            if (d0[0] == "call" and d0[1] == IS3) or clock_test(d0) is not None:
+            if (d0[0] == "call" and d0[1] == IS3) or clock_test(d0, True, b.facts) is not None:
                 continue
             c = _cmp_norm(d0 if truth else ("un", "Not", d0))
             if c is not None:
@@ -1472,7 +1530,7 @@ def r11_4(ctx):
     keep = {l for l in b.names if b.local_ty(l) == VEC}
     # branches decided by constants (an inlined helper called with `None`) are not part of the function
     b, ex, _dead = specialise(b, {}, keep=keep)
-    pos_inf = f.const_value("engine::POS_INF")
+    pos_inf = search_const(f, "POS_INF")
     loops = b.loops()
     if not loops:
         raise ShapeNotRecognised("get_best_move has no iterative-deepening loop")
@@ -1611,7 +1669,7 @@ def r11_6(ctx):
     only as `MATE_SCORE - ply` / `ply - MATE_SCORE` with ply the ply-from-root parameter.  A bare
     +-MATE_SCORE is a mate "in 0", which the reporter prints as `score mate 0`."""
     f = ctx.facts
-    mate = f.const_value("engine::MATE_SCORE")
+    mate = search_const(f, "MATE_SCORE")
     n = 0
     for fn in (ABS, QUIESCE, GBM):
         if not f.has_body(fn):
